@@ -1304,3 +1304,36 @@ def handler_attribute_access(ctx, modnames: Iterable[str], why: str) -> int:
                 else:
                     ctx.ok(construct, f.loc(h))
     return n
+
+
+# --------------------------------------------------------------------------- free text in Rich-markup log calls
+_TEXT_ATTRS = ("str_value", "_user_value", "_sdkconfig_value", "help", "filename")
+
+
+def log_text_escaped(ctx, quals: Iterable[str], why: str) -> int:
+    """The project's logger renders Rich markup. In the given functions every log call (without `markup=False`) that
+    interpolates *text taken from the tree or the configuration* - `<x>.str_value`, a user value, a literal's name reached through
+    a `set` entry - passes it through escape(): `[/a]` in such a text is otherwise a MarkupError raised out of the function.
+    Numbers, type names and identifiers of defined symbols are not text in this sense."""
+    repo = ctx.repo
+    n = 0
+    for q in quals:
+        f = repo.func(q)
+        ctx.analysed(q)
+        for c in own_nodes(repo, f):
+            if not (isinstance(c, ast.Call) and ast.unparse(c.func).startswith("log.") and c.args):
+                continue
+            if any(k.arg == "markup" and ast.unparse(k.value) == "False" for k in c.keywords):
+                continue
+            for fv in [x for a in c.args for x in ast.walk(a) if isinstance(x, ast.FormattedValue)]:
+                e = fv.value
+                if not (isinstance(e, ast.Attribute) and e.attr in _TEXT_ATTRS) and not (
+                        isinstance(e, ast.Call) and isinstance(e.func, ast.Name) and e.func.id == "escape" and e.args
+                        and isinstance(e.args[0], ast.Attribute) and e.args[0].attr in _TEXT_ATTRS):
+                    continue
+                n += 1
+                inner = e.args[0] if isinstance(e, ast.Call) else e
+                construct = f"{f.short}/log call interpolating `{ast.unparse(inner)[:40]}` escapes it"
+                (ctx.ok(construct, f.loc(c)) if isinstance(e, ast.Call) else
+                 ctx.bad(construct, f"`{ast.unparse(inner)}` is free text and reaches a Rich-markup log call unescaped: {why}", f.loc(c)))
+    return n
